@@ -4,7 +4,7 @@
 From Coq Require Import List NArith Bool Arith Sorted.
 From Coq Require Import Strings.Byte.
 Require Import BS.Bytes BS.Common BS.Api BS.Layout BS.Format BS.FormatFacts BS.Spec BS.SpecStep BS.Sections.
-Require Import BS.FS BS.FSFacts BS.Meta BS.MetaFacts BS.Header BS.Reader BS.ReaderFacts BS.Index BS.Data BS.DataFacts BS.Seek BS.SeekFacts BS.Series BS.SeriesFacts BS.ReadAllFacts.
+Require Import BS.FS BS.FSFacts BS.Meta BS.MetaFacts BS.Header BS.Reader BS.ReaderFacts BS.Index BS.Data BS.DataFacts BS.Seek BS.SeekFacts BS.Series BS.SeriesFacts BS.ReadAllFacts BS.PagingFacts.
 Import ListNotations.
 
 (* (I refines S) the first n >= 1 lines of a range are exactly the first min(n, k) of the k lines a full read
@@ -14,5 +14,11 @@ Theorem C13_first_n_is_prefix : forall fs sr p hdr ihdr l, RepH fs sr p hdr ihdr
   \/ (select lo hi l = [] /\ read_first_n sr n lo hi fs = (fs, Err ERange)).
 Proof. exact read_first_n_ok. Qed.
 Print Assumptions C13_first_n_is_prefix.
-(* partial: the paging corollary (concatenation of the pages = l) is a consequence of this theorem and of
-   select (Incl (last+1)) / (Excl last) being the suffix after `last`; the list-level lemma is not written yet. *)
+(* (S) paging: ask for the first n lines, then again and again for the first n lines after the last timestamp seen
+   (Excluded(last) .. unbounded), until a page comes back empty: the pages, in order, are exactly the stored lines,
+   each once - for every page size n >= 1, from 1 to beyond the length of the series. Each page is what read_first_n
+   answers by the theorem above (firstn (min n k) sel = firstn n sel). *)
+Theorem C13_paging : forall n (l:list (N * list byte)), n >= 1 -> StronglySorted N.lt (map fst l) ->
+  concat (pages (S (length l)) n l Unb) = l.
+Proof. exact paging_visits_all. Qed.
+Print Assumptions C13_paging.
